@@ -30,18 +30,12 @@ def fmodBits (a b : Nat) : Nat :=
       encodeDyadic nx (X % Y) e
 
 def numOps : NumOps where
-  arith := fun op a b =>
-    let x := fl a
-    let y := fl b
-    match op with
-    | "+" => bitsOf (x + y)
-    | "-" => bitsOf (x - y)
-    | "*" => bitsOf (x * y)
-    | "/" => bitsOf (x / y)
-    | "div" => bitsOf (Float.floor (x / y))
-    | "mod" => if y == 0 then a else bitsOf (x - y * Float.floor (x / y))
-    | "%" => fmodBits a b
-    | _ => nanBits
+  add := fun a b => bitsOf (fl a + fl b)
+  sub := fun a b => bitsOf (fl a - fl b)
+  mul := fun a b => bitsOf (fl a * fl b)
+  div := fun a b => bitsOf (fl a / fl b)
+  floor := fun a => bitsOf (Float.floor (fl a))
+  fmod := fmodBits
 
 def hex16 (n : Nat) : String :=
   String.ofList ((List.range 16).reverse.map (fun i => hexDigit (n / 16 ^ i % 16)))
@@ -90,14 +84,13 @@ def step (_ : Unit) (toks : List String) : Unit × String :=
     (match parseOperand a, k.toInt? with
      | some av, some kv => ((), showRes (evalFn cfgGen numOps fn [av, Val.ofInt kv]))
      | _, _ => ((), "bad-op"))
-  | [fn, a] =>
-    (match parseOperand a with
-     | some av => ((), showRes (evalFn cfgGen numOps fn [av]))
+  | fn :: rest =>
+    (match rest.mapM parseOperand with
+     | some args =>
+       if args.isEmpty then ((), "bad-op")
+       else if fn.startsWith "m:" then ((), showRes (methodCall cfgGen (fn.drop 2).toString args))
+       else ((), showRes (evalFn cfgGen numOps fn args))
      | none => ((), "bad-op"))
-  | [fn, a, b] =>
-    (match parseOperand a, parseOperand b with
-     | some av, some bv => ((), showRes (evalFn cfgGen numOps fn [av, bv]))
-     | _, _ => ((), "bad-op"))
   | _ => ((), "bad-op")
 
 def main : IO Unit := runLoop () step
